@@ -1,5 +1,6 @@
 import BPT.Props.C02
 import BPT.Rust.ViewArena
+import BPT.Rust.ValidatorComplete
 /-
   C04 — Rust tree stays a valid, balanced B+ tree after every mutation.
 
@@ -143,5 +144,11 @@ theorem height_log (s : RState K V) (hi : Inv s) (h : Nat) (hh : s.height = h + 
 /-! ### non-vacuity: a three-level state built by the model satisfies the invariants' decidable core -/
 example : ((List.range 40).foldl (fun (acc : Option (RState Int Nat)) i => acc.bind fun s => (insert s (Int.ofNat i) i).map (·.1))
     (some (freshState 4))).map (fun s => (s.height, (abs s).length)) = some (3, 40) := by decide
+
+/-- **`check_invariants()` / `check_invariants_detailed()` / `validate()` accept every reachable state**
+    (completeness of the validator model on valid states) -/
+theorem validators_accept (s : RState K V) (hs : SInv s) (hsm : Small s) :
+    (view s).checkInvariants Cfg.repaired = .ok true ∧ (view s).checkDetailed Cfg.repaired = .ok none :=
+  ⟨view_checkInvariants s hs hsm, view_checkDetailed s hs hsm⟩
 
 end BPT.Props.C04
